@@ -395,3 +395,39 @@ Definition step_ok (s : cstate) (v : nat) (d : direction) : bool :=
       end
   end.
 
+
+(* ---- well-formedness of a state, evaluated ONCE on the initial state (theorems C06_wf_implies_step_ok, C06_wf_preserved,
+   C06_sequence_equiv_from_wf: it implies step_ok for every variable in range and is preserved by every conversion) ------
+   ebound N e: every variable of e, and both variables of every derivative atom d a/d b, is an index below N (other
+   EDeriv shapes are opaque leaves, as for vfree / dfree / subst_deriv). *)
+Definition idx_ok (N : nat) (z : Z) : bool := Z.leb 0 z && Nat.ltb (Z.to_nat z) N.
+Fixpoint ebound (N : nat) (e : expr) : bool :=
+  let fix all (l : list expr) : bool := match l with [] => true | x :: r => ebound N x && all r end in
+  match e with
+  | EVar z => idx_ok N z
+  | EDeriv (EVar a) (EVar b) 1 => idx_ok N a && idx_ok N b
+  | EAdd l | EMul l | EFn _ l | EBool _ l => all l
+  | EPow b x => ebound N b && ebound N x
+  | ERel _ a b => ebound N a && ebound N b
+  | EPw l => (fix allp (l : list (expr * expr)) : bool :=
+                match l with [] => true | (x, c) :: r => ebound N x && ebound N c && allp r end) l
+  | _ => true
+  end.
+
+(* the variable an equation defines *)
+Definition lhs_var (l : clhs) : nat := match l with CLV v => v | CLD v _ => v end.
+
+(* one equation: right-hand side in scope; left-hand side in scope; an ODE is with respect to the free variable fv (the
+   differentiation variable of the first ODE); the free variable is not the variable the equation defines *)
+Definition wf_eq (N : nat) (fv : option nat) (q : ceq) : bool :=
+  ebound N (q_rhs q) &&
+  match q_lhs q with
+  | CLV x => Nat.ltb x N && (match fv with Some t0 => negb (Nat.eqb x t0) | None => true end)
+  | CLD y t => Nat.ltb y N && Nat.ltb t N &&
+               (match fv with Some t0 => Nat.eqb t t0 && negb (Nat.eqb y t0) | None => false end)
+  end.
+
+(* every variable is defined at most once (by an assignment or by an ODE), and every equation is wf_eq *)
+Definition wf_state (s : cstate) : bool :=
+  nat_nodupb (map (fun q => lhs_var (q_lhs q)) (ceqs s)) &&
+  forallb (wf_eq (length (cvars s)) (free_var s)) (ceqs s).
